@@ -252,7 +252,7 @@ def run(job):
     acc = Acc(job["sub"])
     if job["sub"] == "dense_big":
         n = job["index"]
-        p = [60, 64, 66, 70, 61, 65][n % 6]
+        p = [66, 72, 80, 90, 100, 64][n % 6]
         a = next(x for x in range(p // 3 + (job["seed"] + n) % 7, p) if np.gcd(x, p) == 1)
         nm = [3, 5, 1, 30, 8, 2][(n // 2) % 6]
         missing = []
